@@ -33,6 +33,7 @@ namespace c01
         }
         static int depth_quick() { return 5; }
         static int depth_thorough() { return 6; }
+        static int leaf_sample_den(bool thorough) { return thorough ? 1 : 1; }
         static uint64_t random_quick() { return 1000; }
         static uint64_t random_thorough() { return 100000; }
         static bool is_removal_or_move(int k) { return k == K_DEL; }
@@ -117,7 +118,7 @@ namespace c01
             case K_ADD_AFTER:
                 return off && t >= L && st[t - L] == IN;
             case K_DEL:
-                return t == 0 && (st[x] == IN || st[x] == INITED);
+                return t == 0 && st[x] == IN; // hlist_del of a never linked node is not part of the statement
             case K_DESTROY:
                 return t == 0 && off;
             }
@@ -177,15 +178,6 @@ namespace c01
                 break;
             }
             case K_DEL:
-                if (st[x] == INITED)
-                {
-                    set_tag("hlist_del@node_init'ed");
-                    hlist_del(&node[x]->lnk);
-                    if (node[x]->lnk.pprev != nullptr)
-                        bad("unlinked-node-changed", "hlist_del of a hlist_node_init'ed node changed its pprev");
-                    VF_OK("hlist: hlist_del of an initialised, never linked node is harmless");
-                    break;
-                }
                 {
                     const std::list<int> &m = model[where[x]];
                     set_tag(m.size() == 1 ? "hlist_del@only" : m.front() == x ? "hlist_del@first" : m.back() == x ? "hlist_del@last" : "hlist_del@middle");
@@ -238,7 +230,8 @@ namespace c01
                 hlist_head *h = head[l];
                 const std::list<int> &m = model[l];
                 // raw walk: every node's pprev is the address of the pointer that points at it
-                Seq got;
+                static Seq got;
+                got.clear();
                 hlist_node **pp = &h->first;
                 for (hlist_node *p = *pp; p; pp = &p->next, p = *pp)
                 {
@@ -267,12 +260,12 @@ namespace c01
                 int k = c_hl_each(h, buf, B);
                 if (k < 0)
                     bad("structure:cycle", "C hlist_for_each of list %d exceeds %d steps", l, B);
-                expect_seq("forward!=model", "C hlist_for_each", l, seq_of(buf, k), m);
+                expect_ids("forward!=model", "C hlist_for_each", l, buf, k, m);
                 observing("C:hlist_for_each_entry");
                 k = c_hl_each_entry(h, buf, B);
                 if (k < 0)
                     bad("structure:cycle", "C hlist_for_each_entry of list %d exceeds %d steps", l, B);
-                expect_seq("forward!=model", "C hlist_for_each_entry", l, seq_of(buf, k), m);
+                expect_ids("forward!=model", "C hlist_for_each_entry", l, buf, k, m);
                 VF_OK("hlist: hlist_for_each / hlist_for_each_entry (C++ and C) == model");
                 if (!m.empty() && hlist_first_entry(h, hobj, lnk)->id != m.front())
                     bad("first/last!=model", "list %d: hlist_first_entry is n%ld, reference n%d", l, hlist_first_entry(h, hobj, lnk)->id, m.front());
@@ -296,7 +289,8 @@ namespace c01
         {
             for (int l = 0; l < L; l++)
             {
-                Seq got;
+                static Seq got;
+                got.clear();
                 int guard = N + 2;
                 bool from_back = (v + l) & 1;
                 while (head[l]->first)
